@@ -211,6 +211,9 @@ struct Ctx {
         cnt["aborted_by_assert"]++; cls("abort", sig);
         std::vector<std::string> cl{"site:" + sig}; for (auto &c : inputClasses) cl.push_back(c);
         if (c15()) raw_violation("assertion_failed", cl, desc, what.substr(0, 400));
+        // In the functional checks a failed library assertion on an input of the property's alphabet means that no result was delivered: it is a violation of that
+        // property as well (clause library_assertion, class = the assertion's call site, so that the known sites of C15's findings can be listed per property).
+        else raw_violation("library_assertion", cl, desc, what.substr(0, 400));
     }
     void violation(const std::string &clause, const std::vector<std::string> &cls_, const std::string &desc,
                    const std::string &observed = "") {
